@@ -123,6 +123,7 @@ type Result struct {
 	MaxRunnable int
 	Invariant   string // first invariant violation, with the step at which it was seen
 	Events      int64  // Stamp() calls
+	LockWaits   int    // times a task had to wait for a sim lock held by another task
 }
 
 // Runtime is the state of one simulated run.
@@ -616,6 +617,9 @@ func (r *Runtime) acquire(t *Task, l *lockState, write bool) {
 			// not the baton holder: get scheduled first
 			r.park(t, stRunnable)
 		} else {
+			r.mu.Lock()
+			r.res.LockWaits++
+			r.mu.Unlock()
 			r.park(t, stWaiting)
 		}
 	}
